@@ -12,11 +12,14 @@ variable {κ β σ : Type} [DecidableEq κ] [DecidableEq β] [DecidableEq σ]
 
 /-! ### association lists -/
 
+omit [DecidableEq β] in
 @[simp] theorem alookup_nil (k : κ) : alookup k ([] : List (κ × β)) = none := rfl
 
+omit [DecidableEq β] in
 theorem alookup_cons (k k' : κ) (v : β) (t : List (κ × β)) :
     alookup k ((k', v) :: t) = if k' = k then some v else alookup k t := rfl
 
+omit [DecidableEq β] in
 theorem alookup_some_mem {k : κ} {v : β} {d : List (κ × β)} (h : alookup k d = some v) :
     (k, v) ∈ d := by
   induction d with
@@ -28,6 +31,7 @@ theorem alookup_some_mem {k : κ} {v : β} {d : List (κ × β)} (h : alookup k 
     · rename_i hk; cases h; subst hk; simp
     · exact List.mem_cons_of_mem _ (ih h)
 
+omit [DecidableEq β] in
 theorem alookup_isSome_iff {k : κ} {d : List (κ × β)} :
     (alookup k d).isSome ↔ k ∈ akeys d := by
   induction d with
@@ -45,21 +49,42 @@ theorem alookup_isSome_iff {k : κ} {d : List (κ × β)} :
         · exact absurd h.symm hk
         · exact h
 
+omit [DecidableEq β] in
 theorem ahas_iff {k : κ} {d : List (κ × β)} : ahas k d = true ↔ k ∈ akeys d := by
   unfold ahas; exact alookup_isSome_iff
 
+omit [DecidableEq β] in
 theorem alookup_eq_none_iff {k : κ} {d : List (κ × β)} : alookup k d = none ↔ k ∉ akeys d := by
   rw [← alookup_isSome_iff]; cases alookup k d <;> simp
 
+omit [DecidableEq β] in
 theorem alookup_some_val_mem {k : κ} {v : β} {d : List (κ × β)} (h : alookup k d = some v) :
     v ∈ avals d := by
   have := alookup_some_mem h
   exact List.mem_map.mpr ⟨(k, v), this, rfl⟩
 
+omit [DecidableEq β] in
 theorem alookup_some_key_mem {k : κ} {v : β} {d : List (κ × β)} (h : alookup k d = some v) :
     k ∈ akeys d := by
   have := alookup_some_mem h
   exact List.mem_map.mpr ⟨(k, v), this, rfl⟩
+
+omit [DecidableEq β] in
+theorem alookup_of_mem_nodup {k : κ} {v : β} {d : List (κ × β)} (hnd : (akeys d).Nodup)
+    (h : (k, v) ∈ d) : alookup k d = some v := by
+  induction d with
+  | nil => cases h
+  | cons kv t ih =>
+    obtain ⟨k', v'⟩ := kv
+    rw [alookup_cons]
+    simp only [akeys, List.map_cons, List.nodup_cons] at hnd
+    rcases List.mem_cons.mp h with h | h
+    · cases h; simp
+    · have hk : k' ≠ k := by
+        intro e; subst e
+        exact hnd.1 (List.mem_map.mpr ⟨(k', v), h, rfl⟩)
+      simp only [hk, if_false]
+      exact ih hnd.2 h
 
 /-! ### lists as sets -/
 
@@ -284,6 +309,39 @@ theorem nodup_bfs {univ srcs : List σ} (hsrc : ∀ s ∈ srcs, s ∈ univ)
   unfold bfs
   simp only
   exact (bfsAux_closed succ univ huniv (univ.length + 1) (dedup srcs) (dedup srcs)
+      (nodup_dedup _) (fun x hx => hsrc x (mem_dedup.mp hx)) (fun x hx => hx)
+      (fun u hu hnu => absurd hu hnu) (by
+        have : (dedup srcs).length ≤ univ.length :=
+          List.Nodup.length_le_of_subset (nodup_dedup _) (fun x hx => hsrc x (mem_dedup.mp hx))
+        omega)).2.2.2
+
+/-- `bfsN` with any fuel above the size of a closed universe computes reachability. -/
+theorem mem_bfsN_iff {univ srcs : List σ} {fuel : Nat} (hf : univ.length < fuel)
+    (hsrc : ∀ s ∈ srcs, s ∈ univ)
+    (huniv : ∀ u ∈ univ, ∀ v ∈ succ u, v ∈ univ) {v : σ} :
+    v ∈ bfsN succ fuel srcs ↔ ∃ s ∈ srcs, Reach succ s v := by
+  unfold bfsN
+  simp only
+  constructor
+  · intro hv
+    refine bfsAux_sound succ srcs _ _ _ (fun x hx => hx) ?_ v hv
+    intro x hx
+    exact ⟨x, mem_dedup.mp hx, Reach.refl x⟩
+  · rintro ⟨s, hs, hr⟩
+    have h := bfsAux_closed succ univ huniv fuel (dedup srcs) (dedup srcs)
+      (nodup_dedup _) (fun x hx => hsrc x (mem_dedup.mp hx)) (fun x hx => hx)
+      (fun u hu hnu => absurd hu hnu) (by
+        have : (dedup srcs).length ≤ univ.length :=
+          List.Nodup.length_le_of_subset (nodup_dedup _) (fun x hx => hsrc x (mem_dedup.mp hx))
+        omega)
+    exact Reach.mem_of_closed h.2.1 hr (h.1 s (mem_dedup.mpr hs))
+
+theorem nodup_bfsN {univ srcs : List σ} {fuel : Nat} (hf : univ.length < fuel)
+    (hsrc : ∀ s ∈ srcs, s ∈ univ)
+    (huniv : ∀ u ∈ univ, ∀ v ∈ succ u, v ∈ univ) : (bfsN succ fuel srcs).Nodup := by
+  unfold bfsN
+  simp only
+  exact (bfsAux_closed succ univ huniv fuel (dedup srcs) (dedup srcs)
       (nodup_dedup _) (fun x hx => hsrc x (mem_dedup.mp hx)) (fun x hx => hx)
       (fun u hu hnu => absurd hu hnu) (by
         have : (dedup srcs).length ≤ univ.length :=
